@@ -13,6 +13,22 @@ const USER: &str = "indexer";
 const PASS: &str = "s3cret-pass";
 
 /// well-formed parameters for every method, relative to a small prepared chain
+/// the method names this check knows well-formed parameters for; any other registered name (a method added later, an
+/// alias of an existing one) is tried with the parameters of every protected method
+const KNOWN_METHODS: [&str; 58] = [
+    "brc20_mine", "brc20_deploy", "brc20_call", "brc20_transact", "brc20_deposit", "brc20_withdraw", "brc20_balance", "brc20_initialise",
+    "brc20_getTxReceiptByInscriptionId", "brc20_getInscriptionIdByTxHash", "brc20_getInscriptionIdByContractAddress", "brc20_finaliseBlock",
+    "brc20_reorg", "brc20_commitToDatabase", "brc20_clearCaches", "brc20_version", "eth_getBlockByNumber", "eth_getBlockByHash",
+    "eth_getTransactionCount", "eth_getBlockTransactionCountByNumber", "debug_getBlockTraceString", "debug_getBlockTraceHash",
+    "debug_getRawHeader", "debug_getRawBlock", "debug_getRawReceipts", "eth_getBlockTransactionCountByHash", "eth_getLogs", "eth_call",
+    "eth_estimateGas", "eth_callMany", "eth_estimateGasMany", "eth_getStorageAt", "eth_getCode", "txpool_contentFrom", "txpool_content",
+    "eth_getTransactionReceipt", "debug_traceTransaction", "eth_getTransactionByHash", "eth_getTransactionByBlockNumberAndIndex",
+    "eth_getTransactionByBlockHashAndIndex", "eth_getBalance", "eth_getUncleCountByBlockNumber", "eth_getUncleCountByBlockHash",
+    "eth_getUncleByBlockNumberAndIndex", "eth_getUncleByBlockHashAndIndex", "web3_sha3", "eth_blockNumber", "eth_chainId", "eth_gasPrice",
+    "eth_accounts", "eth_syncing", "net_version", "web3_clientVersion", "eth_blobBaseFee", "eth_maxPriorityFeePerGas", "eth_mining",
+    "eth_hashrate", "eth_protocolVersion",
+];
+
 fn params_for(method: &str, height: u64, block_hash: &str, tx_hash: &str, n: u64, network: &str) -> Value {
     let hx = format!("0x{:x}", height);
     let ts = 1_700_000_500u64 + n;
@@ -209,6 +225,56 @@ fn run_matrix(seed: u64, variant: u64) -> Matrix {
         ("malformed", Some(rng.pick(&["Basic", "Basic ====", "Bearer abc", "basic aW5kZXhlcjpzM2NyZXQtcGFzcw==", " ", "Basic aW5kZXhlcg==", if user.is_empty() && pass.is_empty() { "Basic" } else { "Basic Og==" }]).to_string())),
         ("correct", Some(good.clone())),
     ];
+    // registered names without a parameter template: with the parameters of every protected method, without credentials
+    if auth_on {
+        for m in names.iter().filter(|m| !KNOWN_METHODS.contains(&m.as_str()) && !protected.contains(*m)) {
+            stats.bump("unknown_registered_names_probed");
+            for (k, t) in protected.iter().enumerate() {
+                let p = params_for(t, 2, &bh, &th, 900_000 + k as u64, network);
+                let before = match digest(&mut c) { Ok(d) => d, Err(e) => bail!("harness/http", json!({"error": e})) };
+                let resp = c.call(m, p, None).unwrap_or(Value::Null);
+                stats.bump("http_requests");
+                tr.push('?');
+                let after = match digest(&mut c) { Ok(d) => d, Err(e) => bail!("harness/http", json!({"error": e})) };
+                let mut changed = after != before;
+                if !changed && t.as_str() == "brc20_commitToDatabase" {
+                    let _ = c.call("brc20_clearCaches", json!([]), Some(&good));
+                    let hnow = c.call("eth_blockNumber", json!([]), None).unwrap_or(Value::Null);
+                    changed = hnow["result"].as_str() != Some("0x1");
+                    let _ = c.call("brc20_mine", json!([1, 1_700_000_002u64]), Some(&good));
+                }
+                if changed {
+                    bail!("mutating-method-not-on-protected-list", json!({"method": m, "why": format!("a registered name outside the protected list changes state when it is given the parameters of {t}"), "resp": resp}));
+                }
+            }
+        }
+    }
+    // public executing reads that the EVM refuses outright (sender with code, oversized init code, call data whose
+    // intrinsic cost exceeds the limit): anonymous, and the indexer must be able to carry on afterwards
+    if auth_on {
+        let refused: Vec<(&str, Value)> = vec![
+            ("eth_call", json!([{"from": CONTROLLER, "to": CONTROLLER, "data": "0x"}])),
+            ("eth_estimateGas", json!([{"from": CONTROLLER, "to": CONTROLLER, "data": "0x"}])),
+            ("eth_call", json!([{"from": DEAD, "data": format!("0x{}", "00".repeat(50_000))}])),
+            ("eth_callMany", json!([[{"from": CONTROLLER, "to": CONTROLLER, "data": "0x"}], null, {"opReturnTxIds": [], "bitcoinTxHexes": {}}])),
+            ("brc20_balance", json!(["", "ordi"])),
+        ];
+        for (m, p) in refused {
+            let before = match digest(&mut c) { Ok(d) => d, Err(e) => bail!("harness/http", json!({"error": e})) };
+            let resp = c.call(m, p, None);
+            stats.bump("http_requests");
+            stats.bump("refused_public_reads");
+            tr.push('!');
+            let after = digest(&mut c);
+            let mine = c.call("brc20_mine", json!([1, 1_700_000_003u64]), Some(&good)).unwrap_or(Value::Null);
+            // back to the prepared shape: height 1 committed, one uncommitted block on top
+            let back = c.call("brc20_reorg", json!([1]), Some(&good)).unwrap_or(Value::Null);
+            let _ = c.call("brc20_mine", json!([1, 1_700_000_002u64]), Some(&good));
+            if after.as_ref().ok() != Some(&before) || !mine["error"].is_null() || !back["error"].is_null() {
+                bail!("unauthorised-request-changed-state", json!({"method": m, "why": "an anonymous read that the EVM refuses left the instance changed or unusable for the authorised indexer", "resp": resp.unwrap_or(Value::Null), "digest_after": after.err(), "authorised_mine_after": mine, "authorised_reorg_after": back}));
+            }
+        }
+    }
     let mut n = 0u64;
     for m in &names {
         for (hname, header) in &headers {
@@ -345,7 +411,7 @@ impl Prop for C12 {
         vec![]
     }
     fn rule(&self) -> String {
-        "case = (seed, authentication settings: enabled with ordinary / blank / half-blank / colon-containing credentials, disabled with and without credentials configured, enabled with a credential missing - then start() must refuse to come up). The real start() serves on loopback; one synchronous HTTP/1.1 client enumerates every registered method x {single call, notification, batch element first / middle / last among permitted calls, batch element after / before an element that is not a request object} x {no header, wrong user, wrong password, malformed header, correct header}. For every request that is not authorised, a public state digest (height, latest block, raw block, next block, txpool, nonces of the indexer and of two senders, brc20_balance - which times out if a block was opened) is taken before and after: it must not change, protected methods must answer 401 per element, public methods and the permitted batch elements must keep working; every non-protected method is called with well-formed parameters, so a mutating method missing from the protected list shows up as a digest change. With the correct header, and with authentication disabled, no method may answer 401. The seed varies the network, the malformed header and the inscription ids. exhaustive over methods x shapes x headers; distinct = (seed, settings variant); non-trivial = the full matrix ran".into()
+        "case = (seed, authentication settings: enabled with ordinary / blank / half-blank / colon-containing credentials, disabled with and without credentials configured, enabled with a credential missing - then start() must refuse to come up). The real start() serves on loopback; one synchronous HTTP/1.1 client enumerates every registered method x {single call, notification, batch element first / middle / last among permitted calls, batch element after / before an element that is not a request object} x {no header, wrong user, wrong password, malformed header, correct header}. For every request that is not authorised, a public state digest (height, latest block, raw block, next block, txpool, nonces of the indexer and of two senders, brc20_balance - which times out if a block was opened) is taken before and after: it must not change, protected methods must answer 401 per element, public methods and the permitted batch elements must keep working; every non-protected method is called with well-formed parameters, so a mutating method missing from the protected list shows up as a digest change; a registered name this check has no parameters for (a later addition, an alias) is called without credentials with the parameters of every protected method in turn. With the correct header, and with authentication disabled, no method may answer 401. The seed varies the network, the malformed header and the inscription ids. exhaustive over methods x shapes x headers; distinct = (seed, settings variant); non-trivial = the full matrix ran".into()
     }
     fn assumptions(&self) -> Vec<String> {
         vec![
